@@ -99,6 +99,7 @@ type Contract struct {
 	entries  map[int][]*Clause // obligations checked when the loop is first reached
 	invs     map[int][]*Clause
 	forget   map[int][]string
+	witnesses map[int][][]Expr // loop ordinal (-1: postconditions) -> witness tuples for existential clauses
 	summarise [][2]string // callee, contract id: calls seen through that contract while verifying this one
 	decr     map[int]*Clause
 	opts     map[string]string
@@ -614,6 +615,34 @@ func (cs *ContractSet) parseFile(pkg, path, src string) error {
 		case "local":
 			// the contract is not applied at call sites by default (only where a caller says "summarise")
 			cur.modular = false
+		case "witnesses":
+			// witnesses <loop ordinal | post> e1, e2, ...: a tuple of expressions offered (together with
+			// the tuple assumed so far) as the witness of the existential clauses of that loop / of the
+			// postconditions, instead of trying every combination of the integers in scope
+			f := strings.SplitN(rest, " ", 2)
+			if len(f) < 2 {
+				return errf("witnesses needs a loop ordinal (or post) and expressions")
+			}
+			key := -1
+			if f[0] != "post" {
+				n, err := strconv.Atoi(f[0])
+				if err != nil {
+					return errf("witnesses needs a loop ordinal or post")
+				}
+				key = n
+			}
+			var tuple []Expr
+			for _, part := range splitTopLevel(f[1]) {
+				e, _, err := parseExpr(strings.TrimSpace(part))
+				if err != nil {
+					return errf("%v", err)
+				}
+				tuple = append(tuple, e)
+			}
+			if cur.witnesses == nil {
+				cur.witnesses = map[int][][]Expr{}
+			}
+			cur.witnesses[key] = append(cur.witnesses[key], tuple)
 		case "summarise":
 			f := strings.Fields(rest)
 			if len(f) != 2 {
@@ -899,6 +928,7 @@ type Env struct {
 	oldEnv *Env            // entry environment
 	frame  *Frame          // for Go source variables in loop invariants
 	frameFirst bool        // frame variables shadow the contract environment (loop invariants)
+	inherited  bool        // the frame belongs to an enclosing environment (bound variables of this one come first)
 	preSt  *State          // state at entry of the innermost cut loop (for pre())
 	preEnv *Env
 }
@@ -920,7 +950,7 @@ func (e *Env) lookup(n string) (Value, bool) {
 	return nil, false
 }
 func (e *Env) child() *Env {
-	return &Env{vars: map[string]Value{}, parent: e, pkg: e.pkg, old: e.old, oldEnv: e.oldEnv, frame: e.frame, frameFirst: e.frameFirst, preSt: e.preSt, preEnv: e.preEnv}
+	return &Env{vars: map[string]Value{}, parent: e, pkg: e.pkg, old: e.old, oldEnv: e.oldEnv, frame: e.frame, frameFirst: e.frameFirst, preSt: e.preSt, preEnv: e.preEnv, inherited: e.frame != nil}
 }
 
 func (x *Exec) resolveType(pkg *ssa.Package, name string) types.Type {
@@ -1156,7 +1186,7 @@ func (x *Exec) evalIdent(st *State, env *Env, name string) Value {
 			}
 			return v
 		}
-		if c.frame != nil && c.frameFirst {
+		if c.frame != nil && c.frameFirst && !c.inherited {
 			if v, ok := frameLookup(c.frame); ok {
 				return v
 			}
@@ -1580,6 +1610,27 @@ func eventMatches(kind, nm string) bool {
 		return strings.HasSuffix(kind, "."+nm[5:])
 	}
 	return false
+}
+
+// splitTopLevel splits at commas that are not nested in brackets.
+func splitTopLevel(s string) []string {
+	var out []string
+	depth := 0
+	last := 0
+	for i, c := range s {
+		switch c {
+		case '(', '[', '{':
+			depth++
+		case ')', ']', '}':
+			depth--
+		case ',':
+			if depth == 0 {
+				out = append(out, s[last:i])
+				last = i + 1
+			}
+		}
+	}
+	return append(out, s[last:])
 }
 
 // funcField: a function-valued struct field reachable from v (e.g. s.extrude).
